@@ -383,9 +383,13 @@ package sql
 //@   props C07 C09
 //@   pure
 
+//@ spec pred isAggCol(s SelectList, i int) { typeof(s[i].ValueExpressionPrimary) == typ(Count) || typeof(s[i].ValueExpressionPrimary) == typ(Average) }
 //@ func (s SelectList) HasAggrFunc() bool
 //@   props C07
 //@   pure
+//@   ensures result <==> exists i int :: 0 <= i && i < len(s) && isAggCol(s, i)
+//@   loop 1 invariant forall i int :: 0 <= i && i <= rangeindex ==> !isAggCol(s, i)
+//@   loop 1 decreases len(s) - rangeindex
 
 //@ func (d DerivedColumn) IsColumnReference() bool
 //@   props C07
